@@ -27,3 +27,14 @@ Definition C14_nonvacuous := initial_roundtrip.
 (** hypotheses are needed: negative clocks are printed with a sign and rejected; lenient inputs are
     accepted but are not canonical *)
 Definition C14_boundaries := (negative_clock_rejected, lenient_not_canonical).
+
+(** * Reported FEN (engine part): the FEN an engine reports decodes to the specification game state
+    it refines: position, side, half-move clock = half-moves since the last pawn move or capture
+    (g_clock_since_last), full-move number incremented after Black's moves (g_fullmove_all). *)
+From Morlock.Model Require Import Engine.
+From Morlock.Lemmas Require Import EngineLemmas1 EngineLemmas2 EngineLemmas3.
+Definition C14_engine_fen_standard := @engine_fen_standard.
+Check @engine_fen_standard.
+Print Assumptions engine_fen_standard.
+Check @g_clock_since_last.
+Check @g_fullmove_all.
